@@ -19,10 +19,12 @@ class LTLExplainer(LtlAstVisitor):
     def explain(self, spec):
         self.spec = spec
         self.explanations.clear()
-        for spec in self.spec.specs:
-            top_signal = self.spec.results[spec]
-            if top_signal[0] < 0:
-                self.visit(spec, [[[0, 0]], False])
+        # the specification is its last assertion, the one evaluate() returns; the
+        # sub-specifications in front of it are explained where it refers to them
+        top = self.spec.specs[len(self.spec.specs) - 1]
+        top_signal = self.spec.results[top]
+        if top_signal[0] < 0:
+            self.visit(top, [[[0, 0]], False])
 
 
     def visitConstant(self, element, args):
